@@ -1001,15 +1001,16 @@ impl GraphDatabase {
             .await?;
 
         let res = recieve.await??;
-        if let Some(serialized_dm) = res {
-            let dam: DataModel = serde_json::from_str(&serialized_dm)?;
-            self.data_model = dam;
-        }
+        //the update is performed on a copy: a refused model must leave the current one untouched
+        let mut data_model = match res {
+            Some(serialized_dm) => serde_json::from_str(&serialized_dm)?,
+            None => self.data_model.clone(),
+        };
 
-        self.data_model.update_system(SYSTEM_DATA_MODEL)?;
-        self.data_model.update(model)?;
+        data_model.update_system(SYSTEM_DATA_MODEL)?;
+        data_model.update(model)?;
 
-        let str = serde_json::to_string(&self.data_model)?;
+        let str = serde_json::to_string(&data_model)?;
 
         struct Serialized(String, DataModel);
         impl Writeable for Serialized {
@@ -1053,8 +1054,14 @@ impl GraphDatabase {
 
         self.graph_database
             .writer
-            .write(Box::new(Serialized(str.clone(), self.data_model.clone())))
+            .write(Box::new(Serialized(str.clone(), data_model.clone())))
             .await?;
+
+        self.data_model = data_model;
+        //the cached queries have been parsed with the previous model
+        self.mutation_cache.clear();
+        self.query_cache.clear();
+        self.deletion_cache.clear();
 
         Ok(str)
     }
